@@ -324,6 +324,22 @@ func (genEngine) Gen(seed uint64, params map[string]any) json.RawMessage {
 			}
 		}
 		ng := 2 + r.IntN(3)
+		if params["enumerate"] == true {
+			// real-generator fault enumeration is expensive (one OS process per faulted run): two generations of
+			// the smallest triples
+			sc.Enumerate = true
+			ng = 2
+			var small []int
+			for _, i := range dirTriples {
+				switch ts[i].Name {
+				case "go-dirs", "go-bootstrap-nobasic", "cpp-dirs", "cpp-cpp":
+					small = append(small, i)
+				}
+			}
+			if len(small) > 0 {
+				dirTriples = small
+			}
+		}
 		for i := 0; i < ng; i++ {
 			ti := dirTriples[r.IntN(len(dirTriples))]
 			if i > 0 && r.IntN(3) == 0 {
@@ -340,7 +356,7 @@ func (genEngine) Gen(seed uint64, params map[string]any) json.RawMessage {
 					h.Plant = append(h.Plant, plantSpec{DropMarker: true})
 				}
 			}
-			if params["faults"] != "none" && i > 0 && r.IntN(3) == 0 {
+			if params["faults"] != "none" && params["enumerate"] != true && i > 0 && r.IntN(3) == 0 {
 				h.Fault = &vrt.FSFault{Kind: []string{"eio", "enospc", "eacces", "torn", "crash"}[r.IntN(5)], AtOp: 1 + r.IntN(60)}
 			}
 			sc.History = append(sc.History, h)
@@ -424,6 +440,8 @@ type genCtx struct {
 	steps   int
 	children int
 	inproc  int
+	lastOps int // mutating operations of the most recent generation
+	fresh   map[string]map[string][]byte // per triple: the tree of a fresh generation into an empty directory (cached within one evaluation)
 }
 
 func (g *genCtx) child(job genJob) (genResult, error) {
@@ -750,6 +768,7 @@ func execC16(g *genCtx, sc genScenario, direct bool, logf func(string, ...any), 
 			fail("machinery", fmt.Sprintf("generation %d ended with outcome %s %v", gi, res.Outcome, res.Violations))
 			return
 		}
+		g.lastOps = len(res.Ops)
 		after, _, err := loadTree(disk + ".new")
 		if err != nil {
 			fail("machinery", err.Error())
@@ -843,16 +862,23 @@ func execC16(g *genCtx, sc genScenario, direct bool, logf func(string, ...any), 
 			}
 		} else {
 			// the real generator: compare with a fresh generation of the same triple into an empty directory
-			freshDisk := filepath.Join(g.dir, "fresh.disk")
-			base := filepath.Join(g.dir, "empty.disk")
-			_ = os.WriteFile(base, emptyDisk(simRoot+"/work"), 0o644)
-			fres, err := g.child(genJob{Args: tr.argsFor(outdir, variant{}), MapPolicy: vrt.MapAscending, NumCPU: 1, Strategy: vrt.StratRunUntilBlocked, Tape: []uint32{}, DiskIn: base, DiskOut: freshDisk})
-			if err != nil || fres.Err != "" {
-				fail("machinery", fmt.Sprintf("fresh reference generation failed: %v %s", err, fres.Err))
-				return
+			if g.fresh == nil {
+				g.fresh = map[string]map[string][]byte{}
 			}
-			ftree, _, _ := loadTree(freshDisk)
-			fin := inDir(ftree)
+			fin, cached := g.fresh[tr.Name]
+			if !cached {
+				freshDisk := filepath.Join(g.dir, "fresh.disk")
+				base := filepath.Join(g.dir, "empty.disk")
+				_ = os.WriteFile(base, emptyDisk(simRoot+"/work"), 0o644)
+				fres, err := g.child(genJob{Args: tr.argsFor(outdir, variant{}), MapPolicy: vrt.MapAscending, NumCPU: 1, Strategy: vrt.StratRunUntilBlocked, Tape: []uint32{}, DiskIn: base, DiskOut: freshDisk})
+				if err != nil || fres.Err != "" {
+					fail("machinery", fmt.Sprintf("fresh reference generation failed: %v %s", err, fres.Err))
+					return
+				}
+				ftree, _, _ := loadTree(freshDisk)
+				fin = inDir(ftree)
+				g.fresh[tr.Name] = fin
+			}
 			if tr.Tool == "tlgen" && strings.Contains(strings.Join(tr.Args, " "), "cpp") {
 				for k := range afterIn { // documented exemption: the legacy C++ writer keeps *.o files
 					if strings.HasSuffix(k, ".o") {
@@ -888,8 +914,8 @@ func execC16(g *genCtx, sc genScenario, direct bool, logf func(string, ...any), 
 		out.Nontrivial = out.Nontrivial || gi > 0
 	}
 	out.Sample = map[string]any{"mode": sc.Mode, "generations": len(sc.History), "history": summarise(sc)}
-	if sc.Enumerate && direct && len(out.Violations) == 0 {
-		enumerateFaults(g, sc, logf, fail, out)
+	if sc.Enumerate && len(out.Violations) == 0 {
+		enumerateFaults(g, sc, direct, logf, fail, out)
 	}
 }
 
@@ -917,34 +943,49 @@ func normalised(name, code string) string {
 	return code
 }
 
-// enumerateFaults: for the sampled direct-drive history, re-run it with the LAST generation faulted
-// at every mutating-operation index, for every fault kind, then one fault-free generation more:
-// it must restore exactness or refuse for the missing marker, never succeed leaving stale files.
-func enumerateFaults(g *genCtx, sc genScenario, logf func(string, ...any), fail func(string, string), out *vrt.RunOut) {
+// enumerateFaults: for the sampled history, re-run it with the LAST generation faulted at every
+// mutating-operation index, for every fault kind, then one fault-free generation more: it must
+// restore exactness or refuse for the missing marker, never succeed leaving stale files.
+func enumerateFaults(g *genCtx, sc genScenario, direct bool, logf func(string, ...any), fail func(string, string), out *vrt.RunOut) {
 	if len(sc.History) < 2 {
 		return
 	}
 	last := len(sc.History) - 1
-	// number of mutating operations of the fault-free last generation
 	probe := sc
 	probe.Enumerate = false
 	probe.History = append([]histGen{}, sc.History...)
 	probe.History[last].Fault = nil
-	var nops int
+	// number of mutating operations of the fault-free last generation
 	{
-		sub := &genCtx{t: g.t, dir: g.dir, probes: map[string]int{}}
 		var o vrt.RunOut
-		o.Probes = sub.probes
-		cnt := 0
-		execC16Count(sub, probe, &cnt)
-		nops = cnt
+		o.Probes = map[string]int{}
+		if g.fresh == nil {
+			g.fresh = map[string]map[string][]byte{}
+		}
+		sub := &genCtx{t: g.t, dir: g.dir, probes: o.Probes, fresh: g.fresh}
+		bad := false
+		execC16(sub, probe, direct, func(string, ...any) {}, func(string, string) { bad = true }, &o)
 		g.children += sub.children
+		g.inproc += sub.inproc
+		if bad {
+			return
+		}
+		g.lastOps = sub.lastOps
 	}
-	if nops == 0 || nops > 80 {
+	nops := g.lastOps
+	limit := 80
+	if !direct {
+		limit = 150
+	}
+	if nops == 0 || nops > limit {
 		g.probes["probe.c16_enumeration_skipped"]++
 		return
 	}
-	for _, kind := range []string{"crash", "eio", "enospc", "eacces", "torn"} {
+	kinds := []string{"crash", "eio", "enospc", "eacces", "torn"}
+	if !direct {
+		kinds = []string{"crash", "enospc", "torn"} // one OS process per faulted run: the three kinds with different disk effects
+	}
+	for _, kind := range kinds {
 		for k := 1; k <= nops; k++ {
 			c := probe
 			c.History = append([]histGen{}, probe.History...)
@@ -956,7 +997,7 @@ func enumerateFaults(g *genCtx, sc genScenario, logf func(string, ...any), fail 
 			var o vrt.RunOut
 			o.Probes = g.probes
 			nviol := len(out.Violations)
-			execC16(g, c, true, func(string, ...any) {}, func(class, msg string) {
+			execC16(g, c, direct, func(string, ...any) {}, func(class, msg string) {
 				fail(class, fmt.Sprintf("[enumerated fault %s at mutating operation %d of generation %d] %s", kind, k, last, msg))
 			}, &o)
 			g.probes["probe.c16_enumerated_fault_runs"]++
@@ -966,47 +1007,8 @@ func enumerateFaults(g *genCtx, sc genScenario, logf func(string, ...any), fail 
 		}
 	}
 	g.probes["probe.c16_histories_fully_enumerated"]++
-}
-
-// execC16Count replays a fault-free direct history and reports the mutating operations of its last generation.
-func execC16Count(g *genCtx, sc genScenario, nops *int) {
-	outdir := simRoot + "/work/out"
-	disk := filepath.Join(g.dir, "count.disk")
-	_ = os.WriteFile(disk, emptyDisk(simRoot+"/work", simRoot+"/work/runtime"), 0o644)
-	for gi, hg := range sc.History {
-		if len(hg.Plant) > 0 {
-			b, _ := os.ReadFile(disk)
-			d, _ := vrt.LoadSimFS(b)
-			for _, p := range hg.Plant {
-				if p.DropMarker {
-					nd := vrt.NewSimFS(simRoot)
-					for k, v := range d.Tree() {
-						if k != outdir+"/meta/marker.txt" {
-							nd.Plant(k, v)
-						}
-					}
-					for _, dd := range d.DirList() {
-						nd.PlantDir(dd)
-					}
-					d = nd
-					continue
-				}
-				if strings.HasSuffix(p.Path, "/.") {
-					d.PlantDir(outdir + "/" + strings.TrimSuffix(p.Path, "/."))
-					continue
-				}
-				d.Plant(outdir+"/"+p.Path, []byte(p.Content))
-			}
-			_ = os.WriteFile(disk, d.Snapshot(), 0o644)
-		}
-		res, err := g.child(genJob{MapPolicy: hg.Variant.MapPolicy, NumCPU: hg.Variant.NumCPU, Strategy: hg.Variant.Strategy, TapeSeed: hg.Variant.TapeSeed, DiskIn: disk, DiskOut: disk,
-			Direct: &directJob{Outdir: outdir, Files: hg.Files, Marker: "meta/marker.txt"}})
-		if err != nil {
-			return
-		}
-		if gi == len(sc.History)-1 {
-			*nops = len(res.Ops)
-		}
+	if !direct {
+		g.probes["probe.c16_real_generator_histories_fully_enumerated"]++
 	}
 }
 
